@@ -6,6 +6,11 @@ HERE = os.path.dirname(os.path.abspath(__file__))
 
 # id -> (level, technique, text, note)   (only implemented checks are listed; the rest go to not_applicable)
 CHECKS = {
+    "C03": ("model_checking",
+            "deviation-bounded exhaustive exploration of the choice tree of a specification-conformant printer (every spelling within <=1/<=2 deviations of the canonical one), each leaf parsed by the real parser and compared with the printer's input value",
+            "All values of the catalogue (every kind, all ordered kind pairs, nesting to depth 20) x 5 parse entry contexts are a full product; spelling freedoms (11 separator kinds incl. comments, number forms, string escapes/octal/continuations/raw EOLs, hex forms, #xx) are explored exhaustively up to 1 (quick) / 2 (thorough, 3 on atoms) simultaneous deviations; sequences check that each parse consumes exactly its own text.",
+            "Trusted: the producer's printer (ISO 32000-1 7.2/7.3). Not covered: more simultaneous deviations than the bound, values outside the catalogue, non-UTF-8 names, >32-bit integers.",
+            "§5 C03"),
     "C05": ("model_checking",
             "exhaustive enumeration of filter kernels, short inputs x encoder variants, the full product of predictor geometries and filter chains, and all single-fault corruptions, executed on the real decoders against independent encoders",
             "Kernels are enumerated completely (hex pairs, run-length headers, PNG filter pairs/triples, ASCII85 groups: all 2^32 in thorough), all byte strings up to length 2/3 go through 23 independent encoder variants, the full product of predictor geometry and of chains up to length 3 is explored by the bounded choice-tree search (also through Stream::data on generated files), and every truncation/single-byte substitution of encoded buffers must give Ok or Err.",
